@@ -13,6 +13,7 @@ C14 driver.  Interactive line protocol (one reply per line):
   ev <id> <p..>           evaluate; if a new cell must be solved: -> solve <n> <A row-major> <b>   (then send `sol`)
                           else                                   -> val <bits> <ncalls> <coords..> | raise 0 | missing ...
   sol <c0..c(n-1)>        solution of the pending system          -> val <bits> <ncalls> <coords..>
+  sol fail                numpy.linalg.solve raised LinAlgError   -> error <ncalls> <coords..>
   dump <id>               cache state                             -> <ndata> (<idx..> <bits>)* <ncoeff> (<cell idx..>)*
   fi <top> <padding> <v> <x0..xtop>        find_index                                              -> <int>
 -/
@@ -53,16 +54,17 @@ def env2 (tbl : Tbl) (fid : Nat) (nm : Norm Float) : Env Float (Float × Float) 
 def env3 (tbl : Tbl) (fid : Nat) (nm : Norm Float) : Env Float (Float × Float × Float) :=
   { f := fun p => fnOf tbl fid [p.1, p.2.1, p.2.2], isnan := Float.isNaN, nan := nanF, norm := nm.apply }
 
-def extWith (sol : List (List Float) → List Float → (Nat → Float)) : Ext Float := { solve := sol, powi := powF }
-def zeroSol : List (List Float) → List Float → (Nat → Float) := fun _ _ _ => 0.0
+def extWith (sol : List (List Float) → List Float → Option (Nat → Float)) : Ext Float := { solve := sol, powi := powF }
+def zeroSol : List (List Float) → List Float → Option (Nat → Float) := fun _ _ => some (fun _ => 0.0)
+def failSol : List (List Float) → List Float → Option (Nat → Float) := fun _ _ => none
 
 /-- a tabulated coefficient vector (captures the evaluated array; avoids re-evaluating closures) -/
 @[noinline] def tabOf (arr : Array Float) : Nat → Float := fun k => arr.getD k nanF
 
 /-- `solve` answering with the vector supplied by the harness (numpy.linalg.solve of the system the driver printed) -/
-def givenSol (c : List Float) : List (List Float) → List Float → (Nat → Float) :=
+def givenSol (c : List Float) : List (List Float) → List Float → Option (Nat → Float) :=
   let arr := c.toArray
-  fun _ _ => tabOf arr
+  fun _ _ => some (tabOf arr)
 
 /-- replace the most recently stored coefficient closure by its table (extensionally equal, evaluated once) -/
 def tabHead {κ : Type} (n : Nat) : List (κ × (Nat → Float)) → List (κ × (Nat → Float))
@@ -76,6 +78,7 @@ def fmtOut (o : Out Float) (calls : List (List Float)) (tbl : Tbl) (fid : Nat) :
   match o with
   | .val v => s!"val {fF v} {calls.length} {cs}".trimAscii.toString
   | .raise => s!"raise {calls.length} {cs}".trimAscii.toString
+  | .error => s!"error {calls.length} {cs}".trimAscii.toString
 
 def axisLine (ax : Axis Float) : String :=
   let idx := List.range (ax.top + 1)
@@ -85,7 +88,7 @@ def parseNorm (hasb lo hi : String) : Norm Float := mkNorm (if pB hasb then some
 
 /-- run one evaluation of object `o` at `pt` with the given `solve`; returns (object', out, calls, system if a new cell
 was calculated) -/
-def evalObj (tbl : Tbl) (sol : List (List Float) → List Float → (Nat → Float)) (o : Obj) (pt : List Float) :
+def evalObj (tbl : Tbl) (sol : List (List Float) → List Float → Option (Nat → Float)) (o : Obj) (pt : List Float) :
     Obj × Out Float × List (List Float) × Option (List (List Float) × List Float) :=
   match o with
   | .d1 fid ax nm nbe st =>
@@ -188,7 +191,7 @@ def step (s : DS) (ts : List String) : DS × String :=
       match s.objs.get? id with
       | none => (s, "bad-id")
       | some o =>
-        let (o', out, calls, _) := evalObj s.tbl (givenSol (cs.map pF)) o p
+        let (o', out, calls, _) := evalObj s.tbl (if cs == ["fail"] then failSol else givenSol (cs.map pF)) o p
         ({ s with objs := s.objs.insert id o', pending := none }, fmtOut out calls s.tbl (fidOf o))
   | ["dump", id] =>
     match s.objs.get? (pN id) with
